@@ -327,6 +327,15 @@ impl C12 {
             t.rx1.push(FrameSpec::Data(d));
             ops.push(Op::Send { port: 1, len: 1, confirmed: false, txn: t });
         }
+        if r.chance(1, 6) {
+            // the network has commanded an explicit TX power (and nothing else) before the silence begins
+            let (ctl, mask) = if cfg.region.is_fixed() { (6u8, 0x00FFu16) } else { (0u8, (1u16 << rr::default_channels(cfg.region).len()) - 1) };
+            let mut d = DataSpec::plain(1);
+            d.fopts = vec![MacSpec::LinkAdr { dr: 15, pow: r.below(rr::max_tx_power_index(cfg.region) as u64 + 1) as u8, mask, ctl, nbtrans: 1 }];
+            let mut t = Txn::default();
+            t.rx1.push(FrameSpec::Data(d));
+            ops.push(Op::Send { port: 1, len: 1, confirmed: false, txn: t });
+        }
         let n = *r.pick(&[10usize, 30, 70, 100, 140, 200, 300, 400]);
         let dl_every = *r.pick(&[0u64, 0, 200, 90, 40, 10]);
         // radio errors at arbitrary call positions inside some of the procedures (each uplink still counts once)
